@@ -254,7 +254,7 @@ def _views(P, R):
             else:
                 R.hold("enc", "WorkingMemory.%s private" % f["name"])
     n = 0
-    for fn in sorted(P.views(), key=lambda f: f.name):
+    for fn in sorted(P.views(lambda f: f.impl_self == WM and f.kind == "method"), key=lambda f: f.name):
         if fn.impl_self != WM or fn.kind != "method" or fn.vis != "pub" or fn.argc < 1 or not fn.local_ty(1).startswith("&") or fn.local_ty(1).startswith("&mut"):
             continue
         rt = fn.locals[0][0]
